@@ -116,6 +116,92 @@ pub fn bare_dec<T: Deserialize + ZooVal>(ver: u32, bytes: &[u8]) -> String {
     }
 }
 
+/// the four containers of the public API
+#[derive(Clone, Copy, PartialEq, Eq, Debug)]
+pub enum Kind {
+    Plain,
+    NoSchema,
+    Compressed,
+    Encrypted,
+}
+impl Kind {
+    pub fn all() -> [Kind; 4] {
+        [Kind::Plain, Kind::NoSchema, Kind::Compressed, Kind::Encrypted]
+    }
+    pub fn name(&self) -> &'static str {
+        match self {
+            Kind::Plain => "plain",
+            Kind::NoSchema => "noschema",
+            Kind::Compressed => "compressed",
+            Kind::Encrypted => "encrypted",
+        }
+    }
+}
+
+pub const PASSWORD: &str = "correct horse";
+pub fn key_of(password: &str) -> [u8; 32] {
+    let d = ring::digest::digest(&ring::digest::SHA256, password.as_bytes());
+    let mut k = [0u8; 32];
+    k.clone_from_slice(d.as_ref());
+    k
+}
+
+pub fn save_container<T: Serialize + WithSchema>(kind: Kind, ver: u32, x: &T) -> Result<Vec<u8>, String> {
+    let r = catch_unwind(AssertUnwindSafe(|| -> Result<Vec<u8>, SavefileError> {
+        let mut buf = Vec::new();
+        match kind {
+            Kind::Plain => savefile::save(&mut buf, ver, x)?,
+            Kind::NoSchema => savefile::save_noschema(&mut buf, ver, x)?,
+            Kind::Compressed => savefile::save_compressed(&mut buf, ver, x)?,
+            Kind::Encrypted => {
+                // what save_encrypted_file does, over memory
+                let mut w = savefile::CryptoWriter::new(&mut buf, key_of(PASSWORD))?;
+                Serializer::save::<T>(&mut w, ver, x, true)?;
+                std::io::Write::flush(&mut w)?;
+            }
+        }
+        Ok(buf)
+    }));
+    match r {
+        Ok(Ok(b)) => Ok(b),
+        Ok(Err(e)) => Err(format!("(err {})", err_class(&e))),
+        Err(_) => Err(format!("(panic {})", panic_class(&last_panic()))),
+    }
+}
+
+pub fn load_container<T: Deserialize + WithSchema + ZooVal>(kind: Kind, memver: u32, password: &str, bytes: &[u8]) -> String {
+    let r = catch_unwind(AssertUnwindSafe(|| -> Result<String, SavefileError> {
+        let mut cur = std::io::Cursor::new(bytes);
+        let x: T = match kind {
+            Kind::Plain | Kind::Compressed => savefile::load(&mut cur, memver)?,
+            Kind::NoSchema => savefile::load_noschema(&mut cur, memver)?,
+            Kind::Encrypted => {
+                let mut rd = savefile::CryptoReader::new(&mut cur, key_of(password))?;
+                Deserializer::<savefile::CryptoReader>::load::<T>(&mut rd, memver)?
+            }
+        };
+        let rest = bytes.len() as u64 - cur.position().min(bytes.len() as u64);
+        let s = x.sx(true);
+        if s.contains("invalid-") {
+            std::mem::forget(x);
+        }
+        Ok(format!("(ok {} {})", s, rest))
+    }));
+    match r {
+        Ok(Ok(s)) => s,
+        Ok(Err(e)) => format!("(err {})", err_class(&e)),
+        Err(_) => format!("(panic {})", panic_class(&last_panic())),
+    }
+}
+
+pub fn schema_bytes<T: WithSchema>(ver: u32, libver: u32) -> Vec<u8> {
+    let schema = savefile::get_schema::<T>(ver);
+    let mut buf = Vec::new();
+    let mut ser = Serializer::<Vec<u8>>::new_raw(&mut buf, libver);
+    schema.serialize(&mut ser).unwrap();
+    buf
+}
+
 pub struct Entry {
     pub name: String,
     /// data versions this definition is exercised at; the last one is its current version
@@ -131,6 +217,10 @@ pub struct Entry {
     pub dec: fn(u32, &[u8]) -> String,
     pub packed: fn(u32) -> bool,
     pub mem: fn() -> (usize, usize),
+    /// generate a value and save it in a container: (wire-order sx, canonical sx, bytes)
+    pub gen_save: fn(&mut Rng, usize, u32, Kind) -> (String, String, Result<Vec<u8>, String>),
+    pub load: fn(Kind, u32, &str, &[u8]) -> String,
+    pub schema_bytes: fn(u32, u32) -> Vec<u8>,
 }
 
 impl Entry {
@@ -147,7 +237,12 @@ fn gen_enc_impl<T: ZooVal + Serialize>(r: &mut Rng, sz: usize, ver: u32) -> (Str
     (wire, canon, res)
 }
 
-pub fn entry<T: ZooVal + Serialize + Deserialize + Packed + 'static>(
+fn gen_save_impl<T: ZooVal + Serialize + WithSchema>(r: &mut Rng, sz: usize, ver: u32, kind: Kind) -> (String, String, Result<Vec<u8>, String>) {
+    let x = T::gen(r, sz);
+    (x.sx(false), x.sx(true), save_container(kind, ver, &x))
+}
+
+pub fn entry<T: ZooVal + Serialize + Deserialize + Packed + WithSchema + 'static>(
     name: &str,
     versions: &[u32],
     family: Option<(&str, u32)>,
@@ -164,5 +259,78 @@ pub fn entry<T: ZooVal + Serialize + Deserialize + Packed + 'static>(
         dec: bare_dec::<T>,
         packed: |v| unsafe { T::repr_c_optimization_safe(v).is_yes() },
         mem: || (std::mem::size_of::<T>(), std::mem::align_of::<T>()),
+        gen_save: gen_save_impl::<T>,
+        load: load_container::<T>,
+        schema_bytes: schema_bytes::<T>,
+    }
+}
+
+// ---------------------------------------------------------------------------------------------
+// process isolation for cases that may abort (allocation failure on an absurd declared length
+// calls `handle_alloc_error`, which cannot be caught)
+
+extern "C" {
+    fn fork() -> i32;
+    fn pipe(fds: *mut i32) -> i32;
+    fn read(fd: i32, buf: *mut u8, n: usize) -> isize;
+    fn write(fd: i32, buf: *const u8, n: usize) -> isize;
+    fn close(fd: i32) -> i32;
+    fn waitpid(pid: i32, status: *mut i32, options: i32) -> i32;
+    fn _exit(code: i32) -> !;
+    fn dup2(old: i32, new: i32) -> i32;
+    fn open(path: *const u8, flags: i32) -> i32;
+}
+
+/// Run `f` in a forked child and return what it produced; `(abort SIG)` if the child died.
+pub fn isolated(f: impl FnOnce() -> String) -> String {
+    unsafe {
+        let mut fds = [0i32; 2];
+        if pipe(fds.as_mut_ptr()) != 0 {
+            return f();
+        }
+        let pid = fork();
+        if pid < 0 {
+            close(fds[0]);
+            close(fds[1]);
+            return f();
+        }
+        if pid == 0 {
+            close(fds[0]);
+            // silence the allocation-failure message of the child
+            let devnull = open(b"/dev/null\0".as_ptr(), 1);
+            if devnull >= 0 {
+                dup2(devnull, 2);
+            }
+            let s = f();
+            let b = s.as_bytes();
+            let mut off = 0;
+            while off < b.len() {
+                let n = write(fds[1], b.as_ptr().add(off), b.len() - off);
+                if n <= 0 {
+                    break;
+                }
+                off += n as usize;
+            }
+            close(fds[1]);
+            _exit(0);
+        }
+        close(fds[1]);
+        let mut out = Vec::new();
+        let mut buf = [0u8; 65536];
+        loop {
+            let n = read(fds[0], buf.as_mut_ptr(), buf.len());
+            if n <= 0 {
+                break;
+            }
+            out.extend_from_slice(&buf[..n as usize]);
+        }
+        close(fds[0]);
+        let mut status = 0i32;
+        waitpid(pid, &mut status, 0);
+        let signaled = (status & 0x7f) != 0;
+        if signaled {
+            return format!("(abort {})", status & 0x7f);
+        }
+        String::from_utf8_lossy(&out).to_string()
     }
 }
